@@ -217,7 +217,7 @@ func (env *Env) designator(x ast.Expr) []Loc {
 		i := e.toIdx(env.typed(env.eval(b.Index), types.Typ[types.Int]))
 		el := s.Ty.Underlying().(*types.Slice).Elem()
 		root, leaf, rid = el, el, s.Rid
-		lo = a.idxAdd(s.Off, i)
+		lo = e.elemIdx(s.Off, i)
 		hi = a.idxAdd(lo, a.idxLit(1))
 	case *ast.SliceExpr:
 		s, ok := env.eval(b.X).(SliceV)
